@@ -20,6 +20,10 @@ pub enum Fault {
     ShortThenFail(usize, usize),
     /// k-th call reports ErrorKind::Interrupted once
     InterruptedOnce(usize),
+    /// never fails; the k-th call accepts only n bytes (n >= 1), every other call everything
+    ShortOnce(usize, usize),
+    /// never fails; every call accepts at most n bytes
+    Chunked(usize),
 }
 
 pub struct Sink {
@@ -74,6 +78,17 @@ impl Write for Sink {
                 self.calls -= 1;
                 self.offered.pop();
                 Err(io::Error::new(io::ErrorKind::Interrupted, "injected EINTR"))
+            }
+            Fault::ShortOnce(k, n) if k == self.calls && !self.interrupted_done => {
+                self.interrupted_done = true;
+                let n = n.max(1).min(buf.len());
+                self.accepted.extend_from_slice(&buf[..n]);
+                Ok(n)
+            }
+            Fault::Chunked(n) => {
+                let n = n.max(1).min(buf.len());
+                self.accepted.extend_from_slice(&buf[..n]);
+                Ok(n)
             }
             _ => {
                 self.accepted.extend_from_slice(buf);
@@ -181,12 +196,30 @@ fn family(report: &Report, max_n: usize) {
                     report.outcome(&(b.clone(), free_ok));
                 }
                 positions.fetch_add(wcalls as u64, Ordering::Relaxed);
+                // never-failing sinks that accept at most n bytes per call
+                if wcalls > 0 {
+                    for n in [1usize, 2, 3] {
+                        report.eval();
+                        fault_runs.fetch_add(1, Ordering::Relaxed);
+                        let f = Fault::Chunked(n);
+                        let mut s = Sink::new(f);
+                        match guard(|| tmpl.render_to(&mut s, &globals[di]).map_err(|e| e.to_string())) {
+                            Err(pi) => report.violation(&format!("C10|{}", pi.sig()), i, w(f), pi.describe()),
+                            Ok(r) => {
+                                if r.is_ok() != free_ok || s.accepted != b {
+                                    report.violation("C10|chunked-sink-differs-from-buffered-render", i, w(f), format!("a sink that never fails but accepts <= {n} bytes per call: result ok={} (fault-free ok={free_ok}); bytes {:?} vs {:?}", r.is_ok(), String::from_utf8_lossy(&s.accepted), String::from_utf8_lossy(&b)));
+                                }
+                            }
+                        }
+                    }
+                }
                 // every fault position
                 let mut prefix_len = 0usize;
                 for k in 1..=wcalls {
                     let len_k = offered[k - 1];
                     let mut faults = vec![Fault::FailAt(k), Fault::InterruptedOnce(k), Fault::ShortThenFail(k, 0)];
                     if len_k > 1 {
+                        faults.push(Fault::ShortOnce(k, 1));
                         faults.push(Fault::ShortThenFail(k, 1));
                         if len_k > 2 {
                             faults.push(Fault::ShortThenFail(k, len_k - 1));
@@ -208,12 +241,19 @@ fn family(report: &Report, max_n: usize) {
                             Fault::FailAt(_) => "fail-at",
                             Fault::ShortThenFail(..) => "short-then-fail",
                             Fault::InterruptedOnce(_) => "interrupted-once",
+                            Fault::ShortOnce(..) => "short-once",
+                            Fault::Chunked(_) => "chunked",
                             Fault::None => "none",
                         };
                         match f {
                             Fault::InterruptedOnce(_) => {
                                 if r.is_ok() != free_ok || s.accepted != b {
                                     report.violation("C10|interrupted-write-not-retried", i, w(f), format!("result ok={} (fault-free ok={free_ok}); bytes {:?} vs {:?}", r.is_ok(), String::from_utf8_lossy(&s.accepted), String::from_utf8_lossy(&b)));
+                                }
+                            }
+                            Fault::ShortOnce(..) => {
+                                if r.is_ok() != free_ok || s.accepted != b {
+                                    report.violation("C10|short-write-not-completed", i, w(f), format!("a sink that never fails but accepts a short count once: result ok={} (fault-free ok={free_ok}); bytes {:?} vs {:?}", r.is_ok(), String::from_utf8_lossy(&s.accepted), String::from_utf8_lossy(&b)));
                                 }
                             }
                             _ => {
@@ -239,7 +279,7 @@ fn family(report: &Report, max_n: usize) {
         },
         |i| json!({"kind":"fault","template":print(&g.unrank_upto(i, max_n))}),
     );
-    report.sample(json!({"family": name, "template": print(&g.unrank_upto(total - 9, max_n)), "data": datas[0].to_json(), "faults": "FailAt(k), ShortThenFail(k,0|1|len-1), InterruptedOnce(k) for every k in 1..W"}));
+    report.sample(json!({"family": name, "template": print(&g.unrank_upto(total - 9, max_n)), "data": datas[0].to_json(), "faults": "FailAt(k), ShortThenFail(k,0|1|len-1), InterruptedOnce(k), ShortOnce(k,1) for every k in 1..W; Chunked(1|2|3) once per run"}));
     report.nontrivial.fetch_add(nontriv.load(Ordering::Relaxed), Ordering::Relaxed);
     report.extra("write_positions", json!(positions.load(Ordering::Relaxed)));
     report.extra("fault_runs", json!(fault_runs.load(Ordering::Relaxed)));
@@ -254,7 +294,7 @@ fn family(report: &Report, max_n: usize) {
 
 pub fn run(tier: Tier) -> i32 {
     let report = Report::new("C10", tier, "fault_enumeration");
-    report.set_rule("every program with 1..N nodes over the writing constructs (text, output, raw, cycle, increment/decrement, include, render, render-for, failing output, break; nested in for/if/case/tablerow/ifchanged/capture) x 3 data objects is streamed into a counting sink; then for EVERY write call k of that run the sink fails at k, accepts a short count (0, 1, len-1) then fails, or reports EINTR once; evaluations = fault-free + faulted runs; non-trivial = (program, data) pairs with at least one write call");
+    report.set_rule("every program with 1..N nodes over the writing constructs (text, output, raw, cycle, increment/decrement, include, render, render-for, failing output, break; nested in for/if/case/tablerow/ifchanged/capture) x 3 data objects is streamed into a counting sink; then for EVERY write call k of that run the sink fails at k, accepts a short count (0, 1, len-1) then fails, reports EINTR once, or accepts a short count once and never fails; plus never-failing sinks accepting at most 1/2/3 bytes per call; evaluations = fault-free + faulted runs; non-trivial = (program, data) pairs with at least one write call");
     report.assume("std::io::Write::write_all semantics (retry on Interrupted, WriteZero on Ok(0))");
     family(&report, if tier.thorough() { 4 } else { 3 });
     report.finish()
